@@ -196,8 +196,10 @@ def search_cases(seed, n):
 
 class MeshGen:
     """builds a script with ABSOLUTE operands, tracking only what it needs (vertex count, faces by cycle)"""
-    def __init__(self, r):
+    def __init__(self, r, check=0):
         self.r = r; self.lines = []; self.nv = 0; self.faces = []   # faces: vertex cycles
+        self.check = check                                          # topology-check flag passed to add_cell
+        self.used = set()                                           # halffaces already bounding a cell
     def do(self, l): self.lines.append(l)
     def add_vertices(self, n, pts=None):
         base = self.nv
@@ -226,7 +228,13 @@ class MeshGen:
         return 2 * (len(self.faces) - 1)
     def cell(self, cycles):
         hfs = [self.face_on(c) for c in cycles]
-        self.do("@AddC 0 " + " ".join(map(str, self.r.shuffle(hfs))))
+        # a halfface may bound at most one cell: if one is taken, use the other side of every face; if that is
+        # taken too the cell is not added (the faces stay as dangling faces)
+        if any(h in self.used for h in hfs):
+            hfs = [h ^ 1 for h in hfs]
+            if any(h in self.used for h in hfs): return
+        self.used.update(hfs)
+        self.do("@AddC %d " % self.check + " ".join(map(str, self.r.shuffle(hfs))))
     def tet(self, a, b, c, d): self.cell([(a, b, c), (a, c, d), (a, d, b), (b, d, c)])
     def hexa(self, v):
         self.cell([(v[0], v[1], v[2], v[3]), (v[7], v[6], v[5], v[4]), (v[1], v[0], v[4], v[5]),
@@ -324,6 +332,36 @@ def mesh_script(r, idx):
         g.do("Q")
     if r.chance(1, 2): g.do("@GC"); g.do("Q")
     return g.lines
+
+def conc_scripts(seed, count):
+    """meshes for the C20 harness on the specialised kernels: '%mesh tet' strips / fans, '%mesh hex' blocks"""
+    r = Rng(seed ^ 0xC20)
+    out = {}
+    for i in range(count):
+        if i % 2 == 0:
+            g = MeshGen(r); g.do("%mesh tet")
+            if r.chance(1, 2):
+                k = r.range(1, 6); base = g.add_vertices(3 + k, [rpt(r) for _ in range(3 + k)])
+                for j in range(k):
+                    v = [base + j, base + j + 1, base + j + 2, base + j + 3]
+                    if j % 2: v[0], v[1] = v[1], v[0]
+                    g.tet(*v)
+            else:
+                k = r.range(3, 6); base = g.add_vertices(2 + k, [rpt(r) for _ in range(2 + k)])
+                for j in range(k): g.tet(base, base + 1, base + 2 + j, base + 2 + (j + 1) % k)
+            out["conc-tet-%d-%d" % (seed, i)] = g.lines
+        else:
+            g = MeshGen(r, check=1); g.do("%mesh hex")
+            nx, ny = r.range(1, 3), r.range(1, 2); f = affine(r)
+            pts = [f((a, b, c)) for c in range(2) for b in range(ny + 1) for a in range(nx + 1)]
+            base = g.add_vertices(len(pts), pts)
+            def vid(a, b, c): return base + (c * (ny + 1) + b) * (nx + 1) + a
+            for a in range(nx):
+                for b in range(ny):
+                    g.hexa([vid(a, b, 0), vid(a + 1, b, 0), vid(a + 1, b + 1, 0), vid(a, b + 1, 0),
+                            vid(a, b, 1), vid(a + 1, b, 1), vid(a + 1, b + 1, 1), vid(a, b + 1, 1)])
+            out["conc-hex-%d-%d" % (seed, i)] = g.lines
+    return out
 
 def mesh_scripts(seed, quick):
     r = Rng(seed ^ 0x6E0)
